@@ -255,7 +255,9 @@ def is_decision_ledger(scope):
     return bool(getattr(scope, 'all_returns', False))
 
 
-def evaluate(rule, prog, scope, ledger_name, floor):
+def evaluate(rule, prog, scope, ledger_name, floor, only=None):
+    """only: optional predicate on the function path of a site - the rule then decides just that part of the ledger (a property that owns
+    some of the functions of a scope evaluates its own share)"""
     if is_decision_ledger(scope) and os.environ.get('VERIF_ACTIVE_TIER', 'quick') != 'thorough':
         # decision-structure ledgers freeze how whole functions decide (every return, every selected call): they react to refactorings
         # that keep behaviour (a helper extracted, a loop rewritten). They belong to the thorough tier; the quick tier decides the same
@@ -263,11 +265,15 @@ def evaluate(rule, prog, scope, ledger_name, floor):
         rule.ok('decision-structure ledger %s: evaluated in the thorough tier' % ledger_name)
         return
     led = load(ledger_name)['sites']
+    if only is not None:
+        led = {k: v for k, v in led.items() if only(k.split('|')[0])}
     seen = set()
     now = {}
     findings = []
     oks = []
     for key, f, bb, span in rule_sites(prog, scope):
+        if only is not None and not only(f.path):
+            continue
         seen.add(key)
         gs = guard_set(prog, f, bb)
         now[key] = {'guards': gs, 'fn': f.path, 'meta': dict(SITE_META.get(key, {})), 'span': span}
